@@ -132,6 +132,38 @@ Theorem C12_engine_last_slow_epoch : forall sqrt_o o pre e h post ks store ks' s
 Proof. exact engine_last_slow_epoch. Qed.
 Print Assumptions C12_engine_last_slow_epoch.
 
+(* incremental driving: appending epochs after sampling (append_epoch / sample_next_epoch) is the same
+   as scheduling them at once, so a slow epoch appended to ANY sampled schedule - e.g. one that had no
+   slow epoch when the engine was constructed - tunes kernel i on the appended epoch's own chain *)
+Theorem C12_engine_run_app : forall sqrt_o o eps1 eps2 ks store,
+  engine_run sqrt_o o ks store (eps1 ++ eps2) =
+  match engine_run sqrt_o o ks store eps1 with
+  | Some (ks1, store1) => engine_run sqrt_o o ks1 store1 eps2
+  | None => None
+  end.
+Proof. exact engine_run_app. Qed.
+Print Assumptions C12_engine_run_app.
+
+Theorem C12_engine_appended_epoch :
+  forall sqrt_o o eps1 e h ks store ks1 store1 ks' store' i diag keys st1,
+  engine_run sqrt_o o ks store eps1 = Some (ks1, store1) ->
+  engine_run sqrt_o o ks store (eps1 ++ [(e, h)]) = Some (ks', store') ->
+  e_type e = ESlow ->
+  nth_error ks1 i = Some (KMM diag keys, st1) ->
+  exists st', nth_error ks' i = Some (KMM diag keys, st') /\
+    tune sqrt_o o diag keys true st1 (Some (restrict keys h)) = Some st' /\
+    tune_mm o diag keys (restrict keys h) = Some (imm st').
+Proof. exact engine_appended_epoch. Qed.
+Print Assumptions C12_engine_appended_epoch.
+
+(* the history is the chain RECORDED for the epoch (the thinned samples, if the epoch is thinned):
+   duration and thinning of the config play no role *)
+Theorem C12_engine_thinned_history : forall sqrt_o o ks store t d th d' th' h,
+  option_map fst (engine_epoch sqrt_o o ks store (mkE t d th) h) =
+  option_map fst (engine_epoch sqrt_o o ks store (mkE t d' th') h).
+Proof. exact engine_thinned_history. Qed.
+Print Assumptions C12_engine_thinned_history.
+
 (* the tuned matrix has a positive trace and the step size is rescaled by sqrt(trace old / trace new) *)
 Theorem C12_trace_pos : forall o diag keys h new, tune_mm o diag keys h = Some new -> 0 < trace new.
 Proof. exact trace_pos. Qed.
@@ -224,3 +256,11 @@ Example C12_ex_engine_last_slow_epoch : exists ks' store' st',
   tune_mm Sorted true [("a"%string, 1%nat)] (restrict [("a"%string, 1%nat)] (ex_h 6 8)) = Some (imm st') /\
   imm st' = Diag [Qred (32 + reg)].
 Proof. exact ex_engine_last_slow_epoch. Qed.
+
+(* constructed with a fast epoch only; a thinned slow epoch (duration 4, thinning 2) appended afterwards *)
+Example C12_ex_engine_appended_thinned : exists ks1 store1 ks' store' st',
+  engine_run (fun _ => 1) Sorted ex_kseq [] [(mkE EFast 2 1, ex_h 1 1)] = Some (ks1, store1) /\
+  engine_run (fun _ => 1) Sorted ex_kseq [] ([(mkE EFast 2 1, ex_h 1 1)] ++ [(mkE ESlow 4 2, ex_h 6 8)]) = Some (ks', store') /\
+  nth_error ks' 3 = Some (KMM false [("z"%string, 1%nat)], st') /\
+  imm st' = Dense [[Qred (18 + reg)]].
+Proof. exact ex_engine_appended_thinned. Qed.
